@@ -12,9 +12,10 @@ namespace rc = romea::core;
 
 namespace {
 
-enum OpKind {CONSTRUCT = 0, CONSTRUCT_ANCHOR, SET_ANCHOR, RESET, TOENU_GEO, TOENU_WGS84, TOENU_ECEF, TOECEF, TOWGS84, OBSERVE, SET_OWN_ANCHOR, COPY};
+enum OpKind {CONSTRUCT = 0, CONSTRUCT_ANCHOR, SET_ANCHOR, RESET, TOENU_GEO, TOENU_WGS84, TOENU_ECEF, TOECEF, TOWGS84, OBSERVE, SET_OWN_ANCHOR, COPY, ASSIGN_ANCHORED, ASSIGN_FRESH, ASSIGN_RESET, ASSIGN_SELF};
 const char * kOpName[] = {"ENUConverter()", "ENUConverter(anchor)", "setAnchor", "reset", "toENU(geodetic)", "toENU(WGS84)", "toENU(ecef)",
-  "toECEF(enu)", "toWGS84(enu)", "isAnchored/getEnuToEcefTransform", "setAnchor(getAnchor())", "continue on a copy"};
+  "toECEF(enu)", "toWGS84(enu)", "isAnchored/getEnuToEcefTransform", "setAnchor(getAnchor())", "continue on a copy",
+  "conv = <converter anchored here>", "conv = ENUConverter()", "conv = <converter anchored here, then reset()>", "conv = conv"};
 
 struct Op
 {
@@ -22,7 +23,7 @@ struct Op
   double lat = 0, lon = 0, alt = 0;   // anchor / absolute geodetic point (used when the converter is not anchored)
   double e = 0, n = 0, u = 0;         // local point (metres) relative to the current anchor
 };
-struct Plan {std::vector<Op> ops;};
+struct Plan {std::vector<Op> ops; int junk = 0;};
 
 typedef long double L;
 struct V3 {L x, y, z;};
@@ -77,7 +78,7 @@ const L kMillimetre = 1e-3L;
 Outcome runHistory(const Plan & p, Ctx & c)
 {
   static const Earth E;
-  std::unique_ptr<rc::ENUConverter> conv(new rc::ENUConverter());
+  std::unique_ptr<rc::ENUConverter> conv(new rc::ENUConverter);  // default-initialised, as "ENUConverter c;" or a class member would be, in plan-filled memory
   bool anchored = false; Geo anchor {0, 0, 0};   // the model: un-anchored, or anchored at `anchor`
   bool everReset = false, reanchored = false; size_t no = 0;
   // a bystander: another converter anchored once at a fixed place; nothing done to the subject may move it
@@ -213,7 +214,7 @@ Outcome runHistory(const Plan & p, Ctx & c)
     if (!anchored && (op.kind == TOENU_ECEF || op.kind == TOECEF || op.kind == TOWGS84 || op.kind == SET_OWN_ANCHOR)) {op.kind = OBSERVE; SIM_COUNT("op.skipped_needs_anchor");}
     Geo ga {op.lat, op.lon, op.alt};
     switch (op.kind) {
-      case CONSTRUCT: sibling.reset(); conv.reset(new rc::ENUConverter()); anchored = false; everReset = false; reanchored = false; SIM_COUNT("op.construct"); break;
+      case CONSTRUCT: sibling.reset(); conv.reset(new rc::ENUConverter); anchored = false; everReset = false; reanchored = false; SIM_COUNT("op.construct"); break;
       case CONSTRUCT_ANCHOR: sibling.reset(); conv.reset(new rc::ENUConverter(geoOf(ga))); anchored = true; anchor = ga; everReset = false; reanchored = false; SIM_COUNT("op.construct_with_anchor"); break;
       case SET_ANCHOR:
         if (anchored) {SIM_PROBE("set_anchor_replaces_existing_frame");}
@@ -222,10 +223,34 @@ Outcome runHistory(const Plan & p, Ctx & c)
       case COPY: {
           // the (implicit) copy constructor carries flag, anchor and frame over; the history continues on the copy,
           // and the original stays alive as a sibling that nothing done to the copy may change
+          if (no % 3 == 2) {
+            // move construction: the history continues on the moved-to converter (the moved-from one is dropped)
+            std::unique_ptr<rc::ENUConverter> moved(new rc::ENUConverter(std::move(*conv)));
+            conv = std::move(moved); SIM_PROBE("continue_on_a_moved_to_converter"); break;
+          }
           std::unique_ptr<rc::ENUConverter> copy(new rc::ENUConverter(*conv));
           sibling = std::move(conv); conv = std::move(copy);
           siblingAnchored = anchored; siblingAnchor = anchor; siblingT = sibling->getEnuToEcefTransform();
           SIM_PROBE("continue_on_a_copy"); break;
+        }
+      case ASSIGN_ANCHORED: {
+          // copy assignment from another converter replaces flag, anchor and frame; the source keeps its own
+          std::unique_ptr<rc::ENUConverter> src(new rc::ENUConverter(geoOf(ga)));
+          const Eigen::Affine3d srcT = src->getEnuToEcefTransform();
+          *conv = *src;
+          if (!src->isAnchored() || !(src->getEnuToEcefTransform().matrix() == srcT.matrix())) {return Outcome::fail("assignment-changed-its-source", fmt("op #%zu: after conv = src the source converter is no longer what it was", no));}
+          anchored = true; anchor = ga; everReset = false; reanchored = false; SIM_PROBE("assigned_from_an_anchored_converter"); break;
+        }
+      case ASSIGN_FRESH:
+        if (anchored) {SIM_PROBE("anchored_converter_overwritten_by_an_unanchored_one");}
+        *conv = rc::ENUConverter(); anchored = false; everReset = false; reanchored = false; break;
+      case ASSIGN_RESET: {
+          std::unique_ptr<rc::ENUConverter> src(new rc::ENUConverter(geoOf(ga))); src->reset();
+          if (anchored) {SIM_PROBE("anchored_converter_overwritten_by_a_reset_one");}
+          *conv = *src; anchored = false; everReset = true; break;
+        }
+      case ASSIGN_SELF: {
+          rc::ENUConverter & self = *conv; *conv = self; SIM_PROBE("self_assignment"); break;
         }
       case SET_OWN_ANCHOR:
         // the argument aliases the converter's own stored anchor: the frame must simply stay what it is
@@ -368,6 +393,7 @@ struct PropC02
       if (r.chance(pReset)) {o.kind = RESET;} else {
         static const int kinds[] = {CONSTRUCT, CONSTRUCT_ANCHOR, SET_ANCHOR, SET_ANCHOR, TOENU_GEO, TOENU_GEO, TOENU_WGS84, TOENU_WGS84, TOENU_ECEF, TOECEF, TOWGS84, TOWGS84, OBSERVE, SET_OWN_ANCHOR, COPY};
         o.kind = r.pick(kinds);
+        if (r.chance(0.06)) {o.kind = r.pick({(int)ASSIGN_ANCHORED, (int)ASSIGN_FRESH, (int)ASSIGN_RESET, (int)ASSIGN_SELF});}
       }
       p.ops.push_back(o);
       // bias: right after a reset, re-anchor somewhere else or auto-anchor
@@ -379,14 +405,20 @@ struct PropC02
     }
     return p;
   }
-  Plan generate(uint64_t index) const
+  // heap contents are an input of the run like any other: every fresh allocation is filled with a byte chosen by the plan
+  Plan generate(uint64_t index) const {Plan p = generate0(index); p.junk = (int)(mix64(master ^ 0x6a756e6bULL, index) % 5); return p;}
+  Outcome execute(const Plan & p, Ctx & c) const {sim::junkHeap(p.junk); return execute0(p, c);}
+  Json toJson(const Plan & p) const {Json j = toJson0(p); j.set("heap_fill_index", p.junk); return j;}
+  Plan fromJson(const Json & j) const {Plan p = fromJson0(j); if (j.has("heap_fill_index")) {p.junk = (int)j["heap_fill_index"].i();} return p;}
+  std::vector<Plan> simpler(const Plan & p) const {std::vector<Plan> out = simpler0(p); if (p.junk != 0) {Plan q = p; q.junk = 0; out.push_back(q);} return out;}
+  Plan generate0(uint64_t index) const
   {
     if (index < scriptedPlans.size()) {return scriptedPlans[index];}
     return randomPlan(mix64(master, index - scriptedPlans.size()));
   }
-  Outcome execute(const Plan & p, Ctx & c) const {return runHistory(p, c);}
+  Outcome execute0(const Plan & p, Ctx & c) const {return runHistory(p, c);}
 
-  Json toJson(const Plan & p) const
+  Json toJson0(const Plan & p) const
   {
     Json j = Json::object(); Json ops = Json::array();
     for (auto & o : p.ops) {
@@ -398,7 +430,7 @@ struct PropC02
     j.set("note", "'geodetic' is the anchor / absolute point (lat rad, lon rad, height m) used by constructing, anchoring and auto-anchoring ops; 'local_enu_m' is the point used for conversions, relative to the current anchor");
     return j;
   }
-  Plan fromJson(const Json & j) const
+  Plan fromJson0(const Json & j) const
   {
     Plan p;
     for (auto & e : j["ops"].a()) {
@@ -408,7 +440,7 @@ struct PropC02
     }
     return p;
   }
-  std::vector<Plan> simpler(const Plan & p) const
+  std::vector<Plan> simpler0(const Plan & p) const
   {
     std::vector<Plan> out;
     removalCandidates(p.ops, [&](std::vector<Op> v) {Plan q = p; q.ops = std::move(v); out.push_back(q);});
@@ -467,7 +499,9 @@ struct PropC02
     Json d = Json::object();
     d.set("rule",
       "A plan is a list of <= 40 ops on one converter: ENUConverter(), ENUConverter(anchor), setAnchor, reset, toENU(geodetic) (auto-anchors an "
-      "un-anchored converter), toENU(WGS84), toENU(ecef), toECEF, toWGS84, plain observation. Anchors: |lat| <= 85 deg (15 % within 3 % of the limit), "
+      "un-anchored converter), toENU(WGS84), toENU(ecef), toECEF, toWGS84, plain observation, setAnchor(getAnchor()), continue on a copy / moved-to converter "
+      "(the original stays alive and must not change), assignment from an anchored / pristine / reset converter and self-assignment. Every fresh allocation and "
+      "the stack below the run are filled with a plan-chosen byte; default constructors are reached by default-initialisation. Anchors: |lat| <= 85 deg (15 % within 3 % of the limit), "
       "longitudes in [-pi, pi] (the library asserts this range): uniform / on 0, +-90, +-180 deg / within 1e-9..0.1 rad of the antimeridian, heights in [-500, 9000] m; local points "
       "up to 100 km horizontally and -1..10 km vertically; resets are biased to be followed by a re-anchoring elsewhere. After every op the complete "
       "frame check runs. distinct = distinct hash of (op kinds with anchor/point classes); non-trivial = reset of an anchored converter, then a new "
